@@ -1,5 +1,5 @@
 (* C06 - Unknown options, extensions and entity members are skipped, not fatal. *)
-From Ctap Require Import Base Schema Wire Utf8 Typed Procs Inst Tables CborItem WireP SkipP TypedP EntriesP FramingP ObRequestSide.
+From Ctap Require Import Base Schema Wire Utf8 Typed Procs Inst Tables CborItem WireP SkipP TypedP EntriesP FramingP ObRequestSide FnShapes Shapes ObShapeRequest.
 Local Open Scope string_scope.
 Local Open Scope Z_scope.
 
@@ -57,8 +57,14 @@ Theorem c06_generated_conforms :
   forallb (fun f => request_side_conforms (gen_env f) (spec_env f)) all_feats = true.
 Proof. exact generated_request_side. Qed.
 
+(* tie to the source for the hand-modelled procedural code: the bodies of these functions, as regenerated from
+   /repo now, have the shape (literals, operators, calls, control flow, constants) the model was written against *)
+Theorem c06_modelled_functions_unchanged_request : shapes_hold fn_shapes shapes_request = true.
+Proof. exact generated_shapes_request. Qed.
+
 Eval vm_compute in "ASSUMPTIONS c06_skip_exact". Print Assumptions c06_skip_exact.
 Eval vm_compute in "ASSUMPTIONS c06_unknown_member_step". Print Assumptions c06_unknown_member_step.
 Eval vm_compute in "ASSUMPTIONS c06_unknown_members_irrelevant". Print Assumptions c06_unknown_members_irrelevant.
 Eval vm_compute in "ASSUMPTIONS c06_hosts_are_text_keyed". Print Assumptions c06_hosts_are_text_keyed.
 Eval vm_compute in "ASSUMPTIONS c06_generated_conforms". Print Assumptions c06_generated_conforms.
+Eval vm_compute in "ASSUMPTIONS c06_modelled_functions_unchanged_request". Print Assumptions c06_modelled_functions_unchanged_request.
